@@ -378,7 +378,15 @@ def obs_prog(d, ob):
     for n in nodes:
         rank.setdefault(n, 0)      # cyclic constraints: no rank exists, the checker will say so
     rk = "[" + "; ".join("(%d, %d)" % (n, r) for n, r in sorted(rank.items())) + "]"
-    return prog, rk
+    # C05: positions of the input-free Async providers
+    F = []
+    for ti, th in enumerate(threads):
+        for j, it in enumerate(th):
+            if it["pi"] < len(d["provs"]):
+                pr = d["provs"][it["pi"]]
+                if pr["kind"] == "fn" and pr["async"] and not pr["requires"]:
+                    F.append((ti, j))
+    return prog, rk, "[" + "; ".join("(%d, %d)" % x for x in F) + "]"
 
 
 REJ = {"dup": 1, "orphan": 2, "cycle": 3}
@@ -408,11 +416,14 @@ def run_cases(cases, workdir, name="cases", progs=None):
         sh = shards[ix]
         path = os.path.join(workdir, "%s_%d.v" % (name, ix))
         with open(path, "w") as f:
-            f.write("From Coq Require Import List NArith. Import ListNotations.\nRequire Import Gen Corr GenU CorrS Sem2 Check.\n")
+            f.write("From Coq Require Import List NArith. Import ListNotations.\nRequire Import Gen Corr GenU CorrS Sem2 Check Overlap.\n")
             f.write("Definition cases : list (nat * (decl * xres)) := [\n" + ";\n".join("(%d, (%s, %s))" % c for c in sh) + "].\n")
             f.write("Definition M := Eval vm_compute in xmismatches cases.\nPrint M.\n")
-            pl = [(c[0],) + progs[c[0]] for c in sh if c[0] in progs]
+            pl = [(c[0],) + progs[c[0]][:2] for c in sh if c[0] in progs]
             f.write("Definition obsprogs : list (nat * (Sem2.prog * list (nat * nat))) := [\n" + ";\n".join("(%d, (%s, %s))" % x for x in pl) + "].\n")
+            pf = [(c[0], progs[c[0]][0], progs[c[0]][2]) for c in sh if c[0] in progs and progs[c[0]][2] != "[]"]
+            f.write("Definition obsF : list (nat * (Sem2.prog * list (nat * nat))) := [\n" + ";\n".join("(%d, (%s, %s))" % x for x in pf) + "].\n")
+            f.write("Definition C := Eval vm_compute in flat_map (fun c => if Overlap.c05b (fst (snd c)) (snd (snd c)) then [] else [(fst c, 20)]) obsF.\nPrint C.\n")
             f.write("Definition K := Eval vm_compute in flat_map (fun c => match check_code (fst (snd c)) (snd (snd c)) with 0 => [] | k => [(fst c, k)] end) obsprogs.\nPrint K.\n")
             f.write("Definition E := Eval vm_compute in flat_map (fun c => match fst (explore_code (fst (snd c))) with 0 => [] | k => [(fst c, k + 10)] end) obsprogs.\nPrint E.\n")
         rc, out = vlib.coqc_file(path, timeout=900)
@@ -445,6 +456,12 @@ def run_cases(cases, workdir, name="cases", progs=None):
             if not m:
                 ok = False
                 log += "cannot parse explorer output: " + out[-500:]
+                continue
+            chk += [(int(a), int(b)) for a, b in re.findall(r"\((\d+),\s*(\d+)\)", m.group(1))]
+            m = re.search(r"C\s*=\s*\[(.*?)\]\s*:\s*list \(nat \* nat\)", out, re.S)
+            if not m:
+                ok = False
+                log += "cannot parse C05 checker output: " + out[-500:]
                 continue
             chk += [(int(a), int(b)) for a, b in re.findall(r"\((\d+),\s*(\d+)\)", m.group(1))]
     return ok, bad, log, chk
@@ -590,7 +607,10 @@ def _stage(seed, tier, want_malformed):
     for r in records:
         codes = [c for i, c in chk if i == r["id"]]
         r["checker_code"] = ([c for c in codes if c < 10] or [0])[0]     # 1: not well-synchronised (wf), 2: rank conditions fail
-        r["explore_code"] = ([c - 10 for c in codes if c >= 10] or [0])[0]  # 1: model run reads an unwritten variable, 2: model run deadlocks
+        r["explore_code"] = ([c - 10 for c in codes if 10 <= c < 20] or [0])[0]  # 1: model run reads an unwritten variable, 2: model run deadlocks
+        r["c05_shape_fails"] = 20 in codes     # the input-free Async providers are not all first-reachable without a wait
+        if r["id"] in progs:
+            r["c05_F"] = progs[r["id"]][2]
         if r["id"] in progs:
             r["obs_prog"] = progs[r["id"]][0]
         if r.get("obs") and r["obs"].get("defects"):
